@@ -326,10 +326,29 @@ def run(ctx: Context) -> None:
     mo = p.functions.get(f"{GEO}._maybe_open")
     ctx.need('R15.4', mo is not None and mo.params, "_maybe_open exists", wg)
     handle = mo.params[0]
-    passthrough = [y for y in ast.walk(mo.node) if isinstance(y, ast.Yield) and isinstance(y.value, ast.Name) and y.value.id == handle]
-    ctx.need('R15.4', len(passthrough) == 1, "_maybe_open yields a given handle as it is on one path", mo)
     from .common import path_conditions
-    conds = path_conditions(mo, passthrough[0])
+    moflow = ctx.flow(mo)
+    passthrough, conds = [], []
+    for y in ast.walk(mo.node):
+        if not (isinstance(y, ast.Yield) and isinstance(y.value, ast.Name)):
+            continue
+        if y.value.id == handle:
+            passthrough.append(y)
+            conds += path_conditions(mo, y)
+            continue
+        # `with (nullcontext(handle) if <test> else open(handle, mode)) as f: yield f`: the handle goes through on one arm
+        for w in ast.walk(mo.node):
+            if isinstance(w, ast.With) and any(x is y for x in ast.walk(w)):
+                for item in w.items:
+                    if isinstance(item.optional_vars, ast.Name) and item.optional_vars.id == y.value.id:
+                        cm = moflow.resolve(item.context_expr)
+                        if isinstance(cm, ast.IfExp):
+                            for arm, pol in ((cm.body, True), (cm.orelse, False)):
+                                if isinstance(arm, ast.Call) and (mo.module.resolve(dotted(arm.func) or '?') or '').endswith('nullcontext') and len(arm.args) == 1 \
+                                        and isinstance(arm.args[0], ast.Name) and arm.args[0].id == handle:
+                                    passthrough.append(y)
+                                    conds += [(cm.test, pol)] + list(path_conditions(mo, w))
+    ctx.need('R15.4', len(passthrough) == 1, "_maybe_open yields a given handle as it is on one path", mo)
     ok = False
     why = 'no test'
     for test, pol in conds:
@@ -341,9 +360,11 @@ def run(ctx: Context) -> None:
         elif isinstance(test, ast.Call) and isinstance(test.func, ast.Name) and test.func.id == 'isinstance' and len(test.args) == 2:
             classes = test.args[1].elts if isinstance(test.args[1], ast.Tuple) else [test.args[1]]
             quals = [mo.module.resolve(dotted(c) or '?') for c in classes]
+            # no class will do: typing.IO is an annotation, and the io base classes leave out the wrappers that only behave like
+            # files (tempfile.NamedTemporaryFile, codecs stream writers), which pyshp itself accepts
             why = f"isinstance against {quals}"
-            ok = bool(quals) and all(q in ('io.IOBase', 'io.RawIOBase', 'io.BufferedIOBase', 'io.TextIOBase') for q in quals)
-    ctx.check('R15.4', ok, "the test that recognises an opened file is true for real file objects (a write/read attribute or an io base class; isinstance(x, typing.IO) never is)", mo, passthrough[0],
+    ctx.check('R15.4', ok, "the test that recognises an opened file is true for everything that can be written to (a write/read attribute; isinstance(x, typing.IO) never is, "
+              "and the io base classes leave out file-like wrappers such as tempfile.NamedTemporaryFile)", mo, passthrough[0],
               construct=f"handle test: {why}")
 
 
